@@ -452,6 +452,7 @@ class LazyMasked:
 
     def __len__(self): return len(self.force())
     def __getitem__(self, i): return self.force()[i]
+    def __setitem__(self, i, v): self.force()[i] = v      # the forced array is cached: later reads see the write
     def __iter__(self): return iter(self.force())
     def __array__(self, *a, **k): return self.force().__array__(*a, **k)
 
